@@ -20,7 +20,7 @@ REPLAY_KIND = 'input'
 EXHAUSTIVE = {'quick': False, 'thorough': False}
 IMPL_TIMEOUT = 1500
 COQ_SHARD = 120      # ddl cases are large terms: smaller files elaborate faster and spread over the cores
-RULE = ('six case streams from one PRNG: (ddl) random class declarations, 1..6 columns over 16 column kinds x '
+RULE = ('seven case streams from one PRNG: (ddl) random class declarations, 1..6 columns over 16 column kinds x '
         '(dbName, length/varchar, notNone, unique in {unset,False,True}, alternateID, default, defaultSQL, cascade in '
         '{None,True,False,"null"}, refColumn, enum values with quotes/backslashes/commas/None), custom table/idName/idType/idSize, '
         'three styles x longID, unique and multi-column indexes (mysql prefix lengths), RelatedJoin/MultipleJoin towards a second class, '
@@ -33,7 +33,12 @@ RULE = ('six case streams from one PRNG: (ddl) random class declarations, 1..6 c
         'createTable(ifNotExists, createJoinTables, createIndexes), dropTable(ifExists, dropJoinTables), createJoinTables(ifNotExists), '
         'createIndexes() and an out-of-band DROP TABLE, sqlite_master compared with the declarations after every step; '
         '(decoy) a foreign table, created out of band, whose name the wanted table or link table name matches when _ is read as a wildcard '
-        '(or that differs in letter case), then create-if-missing twice, insert/read back, drop-if-present twice; (style) mixedToUnder/underToMixed on an exhaustive '
+        '(or that differs in letter case), then create-if-missing twice, insert/read back, drop-if-present twice; '
+        '(conn) two sqlite databases, both classes (RelatedJoins, DatabaseIndexes as in idem) bound to the first, which mostly is populated first and '
+        'so holds tables of the same names with rows; random histories of createTable / dropTable / createJoinTables / dropJoinTables / '
+        'createIndexes / tableExists / clearTable with their flags, an out-of-band DROP TABLE and an out-of-band INSERT into every table, each call '
+        'routed by no argument, connection=first or connection=second; BOTH databases (tables with row counts, indexes), the error flag and the answer '
+        'are compared after every call; plus createTableSQL / createJoinTablesSQL / createIndexesSQL with connection= one of the seven dialects; (style) mixedToUnder/underToMixed on an exhaustive '
         'small alphabet (lengths <= 4 quick, <= 5 thorough) plus random identifiers. '
         'Non-trivial = at least one option other than the defaults is used / the op sequence changes the schema; '
         'distinct = distinct declaration, op sequence or string.')
@@ -54,6 +59,7 @@ TRUSTED_BASE = [
     'identifiers (class, table, column names) are developer input, assumed to be SQL-safe words that are not reserved words',
     'engine behaviour in the state machine (CREATE/DROP TABLE existence errors, DROP TABLE drops the table\'s indexes, sqlite ALTER TABLE ADD COLUMN restrictions, INSERT..SELECT copies by column name) is a definition, validated against sqlite 3.40 on every evo/idem case',
     'style functions are modelled on ASCII strings; str.upper()/lower() on non-ASCII characters is not modelled',
+    'conn stream: the two databases are two in-memory sqlite connections; the connection= argument is a DBConnection (a Transaction object as argument is not exercised); DELETE FROM fails on a missing table (definition eng_clear)',
 ]
 
 DIALECTS = ['sqlite', 'mysql', 'postgres', 'firebird', 'mssql', 'sybase', 'maxdb']
@@ -675,6 +681,67 @@ def gen_idem_case(rng):
     return {'k': 'idem', 'a': c['a'], 'b': c['b'], 'ops': ops}
 
 
+CONN_OPS = ['create', 'drop', 'rawdrop', 'joins', 'indexes', 'dropjoins', 'exists', 'clear', 'fill']
+CONN_VIA = [None, 'home', 'second']      # no connection= argument (the class's own) / connection=home / connection=second
+
+
+def gen_conn_case(rng):
+    """two databases: both classes are bound to `home`; every call is routed either by default (no argument ->
+    home) or by a per-call connection= argument (home or second).  Mostly: home is populated first (so it holds
+    tables of the very same names, with rows), then the history runs on second through the argument."""
+    c = gen_join_case(rng)
+    if rng.random() < 0.5:
+        c['a']['indexes'].append({'name': 'ix', 'cols': [['x', None]], 'unique': rng.random() < 0.5})
+    if rng.random() < 0.4:
+        c['b']['indexes'].append({'name': 'iy', 'cols': [['y', None]], 'unique': rng.random() < 0.5})
+    ops = []
+    r = rng.random()
+    if r < 0.7:
+        first = rng.choice(['ab', 'ba'])
+        for who in first:
+            ops.append(['create', who, None, False, True, True])
+        ops.append(['fill', 'a', 'home', False, True, True])
+    elif r < 0.85:
+        # home holds only part of the schema
+        ops.append(['create', rng.choice('ab'), None, False, rng.random() < 0.5, rng.random() < 0.5])
+        if rng.random() < 0.5:
+            ops.append(['fill', 'a', 'home', False, True, True])
+    if rng.random() < 0.55:
+        # the second database is provisioned through the argument (one class or both), sometimes populated
+        for who in rng.choice(['ab', 'ba', 'a', 'b']):
+            ops.append(['create', who, 'second', rng.random() < 0.3, rng.random() < 0.85, rng.random() < 0.85])
+        if rng.random() < 0.5:
+            ops.append(['fill', 'a', 'second', False, True, True])
+    for _ in range(rng.randint(3, 9)):
+        r = rng.random()
+        who = rng.choice(['a', 'a', 'b', 'b', 'b'])
+        via = rng.choice(['second'] * 7 + [None] * 2 + ['home'])
+        flag = rng.random() < 0.65
+        if r < 0.28:
+            ops.append(['create', who, via, flag, rng.random() < 0.7, rng.random() < 0.7])
+        elif r < 0.50:
+            ops.append(['drop', who, via, flag, rng.random() < 0.75, True])
+        elif r < 0.58:
+            ops.append(['joins', who, via, flag, True, True])
+        elif r < 0.67:
+            ops.append(['dropjoins', who, via, flag, True, True])
+        elif r < 0.73:
+            ops.append(['indexes', who, via, False, True, True])
+        elif r < 0.81:
+            ops.append(['exists', who, via, False, True, True])
+        elif r < 0.90:
+            ops.append(['clear', who, via, False, rng.random() < 0.7, True])
+        elif r < 0.94:
+            ops.append(['rawdrop', who, via or 'home', False, True, True])
+        else:
+            ops.append(['fill', 'a', via or 'home', False, True, True])
+    rend = []
+    for _ in range(rng.choice([0, 1, 1, 2, 3])):
+        rend.append([rng.choice('ab'), rng.choice(DIALECTS), rng.choice([0, 0, 1, 2]), rng.random() < 0.6,
+                     rng.random() < 0.6])
+    return {'k': 'conn', 'a': c['a'], 'b': c['b'], 'ops': ops, 'rend': rend}
+
+
 def decoy_name(rng, wanted, kind):
     """a DIFFERENT table name that the wanted one matches when `_` is read as a wildcard
     (kind 'wild': some `_` replaced by a letter or digit; 'wildcase': that, in upper case),
@@ -793,6 +860,24 @@ def corpus():
                     {'kind': 'related', 'other': 'VcZz', 'inter': None, 'joinColumn': None, 'otherColumn': None,
                      'create': True, 'attr': 'toVcZz'}]),
                 'b': simple_decl('VcZz', [intcol('y')]), 'decoy': 'vcXaa2vc9zz', 'kind': 'wild', 'target': 'link'})
+    # the seeded scenario c14_droptable_joins_on_class_connection: home holds the schema with rows; a second database is
+    # provisioned and torn down through connection=second (link table must go THERE, home untouched), then provisioned again
+    rj = lambda o: [{'kind': 'related', 'other': o, 'inter': None, 'joinColumn': None, 'otherColumn': None,
+                     'create': True, 'attr': 'to' + o}]
+    out.append({'k': 'conn', 'a': simple_decl('VcAuthor', [intcol('x')], joins=rj('VcBook')),
+                'b': simple_decl('VcBook', [intcol('y')], joins=rj('VcAuthor'),
+                                 indexes=[{'name': 'iy', 'cols': [['y', None]], 'unique': True}]),
+                'ops': [['create', 'a', None, False, True, True], ['create', 'b', None, False, True, True],
+                        ['fill', 'a', 'home', False, True, True],
+                        ['create', 'a', 'second', False, True, True], ['create', 'b', 'second', False, True, True],
+                        ['fill', 'a', 'second', False, True, True], ['exists', 'b', 'second', False, True, True],
+                        ['clear', 'a', 'second', False, True, True],
+                        ['drop', 'b', 'second', True, True, True], ['drop', 'a', 'second', True, True, True],
+                        ['drop', 'b', 'second', True, True, True], ['drop', 'a', 'second', True, True, True],
+                        ['exists', 'a', 'second', False, True, True], ['exists', 'a', None, False, True, True],
+                        ['create', 'a', 'second', False, True, True], ['create', 'b', 'second', False, True, True],
+                        ['dropjoins', 'a', 'second', False, True, True], ['joins', 'a', 'second', False, True, True]],
+                'rend': [['a', 'mysql', 0, True, True], ['b', 'postgres', 2, True, True], ['a', 'mssql', 1, True, True]]})
     out.append({'k': 'style', 's': 'XMLFile'})
     out.append({'k': 'style', 's': 'fooId'})
     out.append({'k': 'style', 's': 'a_1'})
@@ -801,12 +886,13 @@ def corpus():
 
 def generate(rng, tier):
     out = []
-    n = {'quick': (1400, 300, 300, 300, 600, 4, 300), 'thorough': (30000, 4000, 4000, 4000, 8000, 5, 4000)}[tier]
+    n = {'quick': (1400, 300, 300, 300, 600, 4, 300, 400), 'thorough': (30000, 4000, 4000, 4000, 8000, 5, 4000, 5000)}[tier]
     out += [gen_decl_case(rng) for _ in range(n[0])]
     out += [gen_join_case(rng) for _ in range(n[1])]
     out += [gen_evo_case(rng) for _ in range(n[2])]
     out += [gen_idem_case(rng) for _ in range(n[3])]
     out += [gen_decoy_case(rng) for _ in range(n[6])]
+    out += [gen_conn_case(rng) for _ in range(n[7])]
     out += list(style_enum(n[5]))
     out += [gen_style_case(rng) for _ in range(n[4])]
     # malformed stream: declarations the constructors or the renderers refuse
@@ -831,6 +917,7 @@ def search_cases(rng, tier):
     out += [gen_evo_case(rng) for _ in range(800)]
     out += [gen_idem_case(rng) for _ in range(600)]
     out += [gen_decoy_case(rng) for _ in range(600)]
+    out += [gen_conn_case(rng) for _ in range(800)]
     out += list(style_enum(5))
     return out
 
@@ -1313,6 +1400,108 @@ def run_decoy(case):
         conn.close()
 
 
+def _db_state(conn):
+    tables = sorted(t for t in conn.listTables() if t != 'sqlite_sequence')
+    rows = [[t, conn.queryOne('SELECT COUNT(*) FROM %s' % t)[0]] for t in tables]
+    idx = sorted(r[0] for r in conn.queryAll("SELECT name FROM sqlite_master WHERE type='index' AND sql IS NOT NULL"))
+    return {'tables': rows, 'indexes': idx}
+
+
+def _fill_all(conn, k):
+    """out of band: one row (every cell = k) into every table of the database"""
+    for t in sorted(t for t in conn.listTables() if t != 'sqlite_sequence'):
+        cols = [r[1] for r in conn.queryAll('PRAGMA table_info(%s)' % t) if not r[5]]
+        if cols:
+            conn.query('INSERT INTO %s (%s) VALUES (%s)' % (t, ', '.join(cols), ', '.join([str(k)] * len(cols))))
+        else:
+            conn.query('INSERT INTO %s DEFAULT VALUES' % t)
+
+
+CAPS0 = {'mysql_micro': False, 'mssql_micro': False, 'mssql_max': False}
+
+
+def _render(cls, m, f1, f2, d, **kw):
+    """text (and constraints) of one of the three ...SQL methods, lexed for dialect d"""
+    cons = []
+    if m == 0:
+        sql, cons = cls.createTableSQL(createJoinTables=f1, createIndexes=f2, **kw)
+    elif m == 1:
+        sql = cls.createJoinTablesSQL(**kw)
+    else:
+        sql = cls.createIndexesSQL(**kw)
+    return {'text': sql, 'cons': list(cons), 'stmts': split_stmts(lex(sql, d)) if sql else [],
+            'ctoks': [lex(x, d) for x in cons]}
+
+
+def run_conn(case):
+    home, second = new_sqlite(), new_sqlite()
+    reg = _registry()
+    try:
+        A = build_class(case['a'], home, reg)
+        B = build_class(case['b'], home, reg)
+        conns = {'home': home, 'second': second}
+        steps = []
+        for k, full in enumerate(case['ops']):
+            op, who, via, flag, f1, f2 = full
+            cls = A if who == 'a' else B
+            kw = {} if via is None else {'connection': conns[via]}
+            db = conns[via or 'home']
+            ans = None
+            err = None
+            try:
+                if op == 'create':
+                    cls.createTable(ifNotExists=flag, createJoinTables=f1, createIndexes=f2, **kw)
+                elif op == 'drop':
+                    cls.dropTable(ifExists=flag, dropJoinTables=f1, **kw)
+                elif op == 'joins':
+                    cls.createJoinTables(ifNotExists=flag, **kw)
+                elif op == 'dropjoins':
+                    cls.dropJoinTables(ifExists=flag, **kw)
+                elif op == 'indexes':
+                    cls.createIndexes(**kw)
+                elif op == 'exists':
+                    ans = bool(cls.tableExists(**kw))
+                elif op == 'clear':
+                    cls.clearTable(clearJoinTables=f1, **kw)
+                elif op == 'rawdrop':
+                    db.query('DROP TABLE %s' % cls.sqlmeta.table)
+                else:
+                    _fill_all(db, k)
+            except Exception as e:
+                err = type(e).__name__
+            steps.append({'error': err is not None, 'etype': err, 'answer': ans,
+                          'home': _db_state(home), 'second': _db_state(second)})
+        o = {'steps': steps, 'rend': []}
+        # SQL text for another connection's dialect through the argument; the twin classes are BOUND to that connection
+        dcs = dialect_conns(second, CAPS0)
+        twins = {}
+        for who, d, m, f1, f2 in case['rend']:
+            cls = A if who == 'a' else B
+            r = {}
+            try:
+                r = _render(cls, m, f1, f2, d, connection=dcs[d])
+            except Exception as e:
+                r = {'error': type(e).__name__}
+            try:
+                if d not in twins:
+                    treg = _registry()
+                    twins[d] = (build_class(case['a'], dcs[d], treg), build_class(case['b'], dcs[d], treg))
+                tw = twins[d][0 if who == 'a' else 1]
+                t = _render(tw, m, f1, f2, d)
+                r['twin'] = [t['text'], t['cons']]
+            except Exception as e:
+                r['twin'] = 'error:' + type(e).__name__
+            o['rend'].append(r)
+        o['after_rend'] = {'home': _db_state(home), 'second': _db_state(second)}
+        return o
+    finally:
+        for c in (home, second):
+            try:
+                c.close()
+            except Exception:
+                pass
+
+
 def run_style(case):
     from sqlobject import styles
     s = case['s']
@@ -1340,7 +1529,7 @@ def run_impl(cases):
     for c in cases:
         try:
             o = {'ddl': run_ddl, 'join': run_join, 'evo': run_evo, 'idem': run_idem, 'style': run_style,
-                 'decoy': run_decoy}[c['k']](c)
+                 'decoy': run_decoy, 'conn': run_conn}[c['k']](c)
         except Exception as e:
             import traceback
             o = {'crash': '%s: %s\n%s' % (type(e).__name__, e, traceback.format_exc()[-600:])}
@@ -1508,7 +1697,7 @@ def cidxsk(x):
 
 
 def ctx_of(case):
-    if case['k'] in ('join', 'idem', 'decoy'):
+    if case['k'] in ('join', 'idem', 'decoy', 'conn'):
         return {'decl': case['a'], 'others': [case['b']]}
     return case
 
@@ -1565,6 +1754,24 @@ def coq_case(c, o):
         return '(CDecoy %s %s %s %s)' % (
             cdecl(c['a'], ctx), cdecl(c['b'], ctxb), cstr(c['decoy']),
             clist(o['steps'], lambda s: '(%s, %s, %s)' % (cbool(s['error']), clist(s['tables'], cstr), clist(s['indexes'], cstr))))
+    if k == 'conn':
+        ctxb = {'decl': c['b'], 'others': [c['a']]}
+
+        def cview(v):
+            return '(%s, %s)' % (clist(v['tables'], lambda p: '(%s, %d%%nat)' % (cstr(p[0]), p[1])),
+                                 clist(v['indexes'], cstr))
+
+        def crend(p, r):
+            obs = 'SErr' if 'error' in r else '(SOk %s %s)' % (clist(r['stmts'], ctoks), clist(r['ctoks'], ctoks))
+            return '(%s, %d%%nat, %d%%nat, %s, %s, %s)' % (cbool(p[0] == 'a'), DIALECTS.index(p[1]), p[2],
+                                                          cbool(p[3]), cbool(p[4]), obs)
+        return '(CConn %s %s %s %s %s)' % (
+            cdecl(c['a'], ctx), cdecl(c['b'], ctxb),
+            clist(c['ops'], lambda p: '(%d%%nat, %s, %d%%nat, %s, %s, %s)' % (
+                CONN_OPS.index(p[0]), cbool(p[1] == 'a'), CONN_VIA.index(p[2]), cbool(p[3]), cbool(p[4]), cbool(p[5]))),
+            clist(o['steps'], lambda st: '(%s, %s, %s, %s)' % (
+                cbool(st['error']), copt(st['answer'], cbool), cview(st['home']), cview(st['second']))),
+            clist(list(zip(c['rend'], o['rend'])), lambda pr: crend(pr[0], pr[1])))
     if k == 'evo':
         keep = o['before'][0]
         rows0 = [[zval(v) for v in r] for r in o['before'][1]]
@@ -1862,6 +2069,113 @@ def oracle_idem(c, o):
     return None
 
 
+def spec_conn_step(db, decl, other, op, k):
+    """reference semantics of one schema call on ONE database {'rows': {table: row count}, 'indexes': {index: table}};
+    returns (error flag, answer of tableExists)"""
+    kind, _, _, flag, f1, f2 = op
+    t = spec_table(decl)
+    links = spec_owned_links(decl, other)
+    rows = db['rows']
+    if kind in ('create', 'drop', 'rawdrop', 'joins', 'indexes'):
+        tables = set(rows)
+        err = spec_idem_step(tables, db['indexes'], decl, other, [kind, op[1], flag, f1, f2])
+        for n in list(rows):
+            if n not in tables:
+                del rows[n]
+        for n in tables:
+            rows.setdefault(n, 0)
+        return err, None
+    if kind == 'dropjoins':
+        for ln in links:
+            if ln not in rows:
+                if flag:
+                    continue
+                return True, None
+            del rows[ln]
+            for ix in [i for i, tb in db['indexes'].items() if tb == ln]:
+                del db['indexes'][ix]
+        return False, None
+    if kind == 'exists':
+        return False, t in rows
+    if kind == 'clear':
+        for n in [t] + (links if f1 else []):
+            if n not in rows:
+                return True, None
+            rows[n] = 0
+        return False, None
+    for n in rows:          # fill
+        rows[n] += 1
+    return False, None
+
+
+def _view(db):
+    return {'tables': [[n, db['rows'][n]] for n in sorted(db['rows'])], 'indexes': sorted(db['indexes'])}
+
+
+def oracle_conn(c, o):
+    """every schema method works on the connection it is given (connection= argument, else the class's own):
+    after every call the addressed database holds exactly what the declarations and the calls so far ask for
+    -- class table, link tables, indexes, rows -- and the other database is exactly what it was"""
+    dbs = {'home': {'rows': {}, 'indexes': {}}, 'second': {'rows': {}, 'indexes': {}}}
+    for k, (op, st) in enumerate(zip(c['ops'], o['steps'])):
+        decl, other = (c['a'], c['b']) if op[1] == 'a' else (c['b'], c['a'])
+        target = op[2] or 'home'
+        bystander = 'second' if target == 'home' else 'home'
+        before = {n: _view(dbs[n]) for n in dbs}
+        err, ans = spec_conn_step(dbs[target], decl, other, op, k)
+        bad = []
+        if st[bystander] != before[bystander]:
+            bad.append('other_database_changed')
+        if st[target] != _view(dbs[target]):
+            bad.append('addressed_database_differs_from_declaration')
+        if bool(st['error']) != err:
+            bad.append('error_flag')
+        if st['answer'] != ans:
+            bad.append('answer')
+        if bad:
+            return {'what': 'step %d %s(class %s, connection=%s): %s' % (k, op[0], op[1], op[2], ', '.join(bad)),
+                    'failures': [{'kind': 'connection_argument', 'what': bad, 'step': k, 'op': op,
+                                  'addressed': target, 'before': before,
+                                  'expected': {'error': err, 'answer': ans, target: _view(dbs[target]),
+                                               bystander: before[bystander]},
+                                  'actual': {'error': st['error'], 'etype': st.get('etype'), 'answer': st['answer'],
+                                             'home': st['home'], 'second': st['second']}}]}
+    fails = []
+    last = {n: _view(dbs[n]) for n in dbs}
+    if o['after_rend'] != last:
+        fails.append({'kind': 'rendering_changed_a_database', 'expected': last, 'actual': o['after_rend']})
+    for p, r in zip(c['rend'], o['rend']):
+        who, d, m, f1, f2 = p
+        decl, other = (c['a'], c['b']) if who == 'a' else (c['b'], c['a'])
+        if 'error' in r or not isinstance(r.get('twin'), list):
+            fails.append({'kind': 'render_error', 'rend': p, 'error': r.get('error'), 'twin': r.get('twin')})
+            continue
+        # the text for connection=X of a class bound elsewhere = the text of the same class bound to X
+        if [r['text'], r['cons']] != r['twin']:
+            fails.append({'kind': 'rendered_for_wrong_connection', 'rend': p, 'text': r['text'], 'bound_to_it': r['twin']})
+            continue
+        st = list(r['stmts'])
+        if m == 0:
+            sk = py_read_ddl(st[0]) if st else None
+            if sk is None or sk['table'] != spec_table(decl) or \
+                    [x[0] for x in sk['cols']] != [spec_idname(decl)] + [spec_dbname(decl, col) for col in decl['cols']]:
+                fails.append({'kind': 'rendered_table', 'rend': p, 'text': r['text']})
+                continue
+            st = st[1:]
+        want_links = spec_owned_links(decl, other) if (m == 1 or (m == 0 and f1)) else []
+        want_ix = spec_indexes(decl, d) if (m == 2 or (m == 0 and f2)) else []
+        got_links = []
+        for x in st[:len(want_links)]:
+            sk = py_read_ddl(x)
+            got_links.append(sk['table'] if sk else None)
+        got_ix = [py_read_index(x) for x in st[len(want_links):]]
+        if got_links != want_links or got_ix != want_ix:
+            fails.append({'kind': 'rendered_statements', 'rend': p, 'text': r['text'],
+                          'expected': {'links': want_links, 'indexes': want_ix},
+                          'actual': {'links': got_links, 'indexes': got_ix}})
+    return {'failures': fails} if fails else None
+
+
 def oracle_decoy(c, o):
     """create-if-missing / drop-if-present act on the class's own table, whatever other tables there are"""
     fails = []
@@ -1906,7 +2220,7 @@ def oracle_style(c, o):
 
 def oracle(c, o):
     return {'ddl': oracle_ddl, 'join': oracle_join, 'evo': oracle_evo, 'idem': oracle_idem, 'style': oracle_style,
-            'decoy': oracle_decoy}[c['k']](c, o)
+            'decoy': oracle_decoy, 'conn': oracle_conn}[c['k']](c, o)
 
 
 # ---------- known findings: each classifier accepts exactly its trigger class
@@ -1985,6 +2299,8 @@ def nontrivial(c, o):
         return len(c['ops']) >= 2
     if k == 'decoy':
         return True
+    if k == 'conn':
+        return any(op[2] == 'second' for op in c['ops'])
     return o.get('m2u') != c['s'] or o.get('u2m') != c['s']
 
 
@@ -2037,6 +2353,15 @@ def distribution(cases, obs):
         elif k == 'join':
             sh = '%d+%d' % (len(c['a']['joins']), len(c['b']['joins']))
             d['join_shapes'][sh] = d['join_shapes'].get(sh, 0) + 1
+        elif k == 'conn':
+            cv = d.setdefault('conn_calls(op,via,failed)', {})
+            for op, st in zip(c['ops'], o['steps']):
+                kk = '%s/%s/%s' % (op[0], op[2] or 'none', 'err' if st['error'] else 'ok')
+                cv[kk] = cv.get(kk, 0) + 1
+            cr = d.setdefault('conn_renders(dialect,method)', {})
+            for p in c['rend']:
+                kk = '%s/%d' % (p[1], p[2])
+                cr[kk] = cr.get(kk, 0) + 1
         elif k == 'style':
             if style_domain(c['s']):
                 d['style_in_domain'] += 1
